@@ -17,7 +17,7 @@ except ImportError:  # pragma: no cover
     import sre_parse
     import sre_constants as sre_c
 
-MAX_RUNS = 2
+MAX_RUNS = 4
 
 
 class _Cls:
